@@ -23,6 +23,12 @@ pub struct BudgetCase {
     /// per thread: ops, true = try_withdraw, false = deposit
     pub threads: Vec<Vec<bool>>,
     pub schedule: Vec<u8>,
+    /// how often the monitor reads `balance()` while the threads run: 0 = after every atomic step,
+    /// k = after every k-th step, 255 = never (only once everything has finished). Reading the
+    /// balance is itself an operation on the budget, so a history without readers in between is
+    /// a different history.
+    #[serde(default)]
+    pub observe: u8,
 }
 
 fn case_strategy(tier: Tier) -> BoxedStrategy<BudgetCase> {
@@ -44,11 +50,13 @@ fn case_strategy(tier: Tier) -> BoxedStrategy<BudgetCase> {
         kind,
         prop::collection::vec(prop::collection::vec(any::<bool>(), 1..=omax), 2..=tmax),
         schedule,
+        prop_oneof![2 => Just(0u8), 2 => Just(255u8), 1 => 2u8..=6],
     )
-        .prop_map(|(kind, threads, schedule)| BudgetCase {
+        .prop_map(|(kind, threads, schedule, observe)| BudgetCase {
             kind,
             threads,
             schedule,
+            observe,
         })
         .boxed()
 }
@@ -149,6 +157,7 @@ pub fn run_budget(case: &BudgetCase) -> Verdict {
     let mon_events = events.clone();
     let mon_y = yields_mirror.clone();
     let pm = &p;
+    let observe = case.observe;
     let outcome = sched::explore(bodies, &case.schedule, |view| {
         *mon_y.lock().unwrap() = view.yields.to_vec();
         let evs = mon_events.lock().unwrap();
@@ -194,7 +203,13 @@ pub fn run_budget(case: &BudgetCase) -> Verdict {
                 }
             }
         }
-        let balance = mon_budget.balance() as u64;
+        let observe_now = match observe {
+            0 => true,
+            255 => false,
+            k => view.step as u64 % k as u64 == 0,
+        };
+        // without a reading, the grants alone must still be covered by the funding
+        let balance = if observe_now { mon_budget.balance() as u64 } else { 0 };
         // u128: a corrupted (wrapped) balance must be reported, not overflow the oracle
         let funded = pm.initial as u128 + deposits_started as u128 * pm.deposit as u128;
         if grants as u128 * pm.cost as u128 + balance as u128 > funded {
@@ -358,6 +373,9 @@ impl Property for C08 {
         if v.nontrivial {
             r.class("op_completed_inside_another_threads_op");
         }
+        if case.observe != 0 {
+            r.class("balance_not_read_after_every_step");
+        }
         r.class(match case.kind {
             Kind::Token { .. } => "token_bucket",
             Kind::Aimd { .. } => "aimd",
@@ -366,7 +384,7 @@ impl Property for C08 {
         r
     }
     fn rule(&self) -> String {
-        "proptest-generated (budget kind and parameters: token bucket max 0-4 / initial <= max; AIMD min <= max <= 6, deposit 1-3, cost 1-3, factor 0-1), 2-4 logical threads x 1-4/5 operations (try_withdraw / deposit), and a schedule (choice list; preemption-bounded and uniformly random generators). The real budget code runs on OS threads; every instrumented atomic operation is a scheduling point owned by the case. After every atomic step: grants x cost + balance <= initial + started deposits x amount, balance <= configured maximum; at quiescence the completed history must be linearizable (brute force, real-time order respected) against a sequential model - exact for the token bucket, balance-only with a free ceiling in [min,max] for AIMD - including the final balance. Non-trivial: some thread's operation completes while another thread is in the middle of an operation of which it has executed at least one atomic step; distinct by hash of the case".into()
+        "proptest-generated (budget kind and parameters: token bucket max 0-4 / initial <= max; AIMD min <= max <= 6, deposit 1-3, cost 1-3, factor 0-1), 2-4 logical threads x 1-4/5 operations (try_withdraw / deposit), and a schedule (choice list; preemption-bounded and uniformly random generators), and how often the monitor reads balance() in between (every step / every k-th / never). The real budget code runs on OS threads; every instrumented atomic operation is a scheduling point owned by the case. After every atomic step: grants x cost + balance <= initial + started deposits x amount, balance <= configured maximum; at quiescence the completed history must be linearizable (brute force, real-time order respected) against a sequential model - exact for the token bucket, balance-only with a free ceiling in [min,max] for AIMD - including the final balance. Non-trivial: some thread's operation completes while another thread is in the middle of an operation of which it has executed at least one atomic step; distinct by hash of the case".into()
     }
     fn assumptions(&self) -> Vec<String> {
         vec![
